@@ -145,7 +145,7 @@ def _cli_under_seed(args, text, hashseed):
 def check_C17(c):
     import json
     from concurrent.futures import ThreadPoolExecutor
-    c.mc('Purity', _q(c, 'Purity_q.cfg', 'Purity_t.cfg'), workers=8, heap='6g')
+    c.mc('Purity', _q(c, 'Purity_q.cfg', 'Purity_t.cfg'), workers=_q(c, 8, 16), heap=_q(c, '6g', '10g'), timeout=7200)
     # one worker: with a fixed seed the simulated behaviours are then the same on every run
     res = tlc.run_tlc('Purity', cfg='PurityX.cfg', workers=1, heap='4g', simulate='num=%d' % _q(c, 260, 6500),
                       extra=['-depth', '11', '-seed', str(c.seed + 3)], tag='Purity_sim')
